@@ -156,7 +156,7 @@ def oracle(d, rc):
         ids = [i for i in ids if i in vec]
         # replay = the failing vector(s) alone first; the harness adds the initial state
         cfg = kv(orc.get("CFG", ""))
-        c = dict(policy=cfg.get("policy", ""), engine=cfg.get("engine", ""),
+        c = dict(policy=cfg.get("policy", ""), engine=cfg.get("engine", ""), v2=cfg.get("v2", "false"),
                  vectors=["%s\t%s" % (vec[i][0], vec[i][1]) for i in ids],
                  commands=[show(unh(vec[i][1])) for i in ids][:8], dir=os.path.basename(d))
         if ids:
@@ -343,6 +343,10 @@ def run(ctx):
         log("MODEL BUILD FAILED:\n" + mout[-3000:])
         raise SystemExit(2)
 
+    # stale sub-directories of earlier runs (other tier / seed) are not evidence of this run
+    for old_d in glob.glob(os.path.join(ctx.run_dir, "*")):
+        if os.path.isdir(old_d):
+            shutil.rmtree(old_d, ignore_errors=True)
     avoid = ",".join(sorted(k for k, sig in DANGER.items()
                             if any(kf.get("status") == "open" and kf.get("property") == "C11" and kf.get("signature") == sig
                                    for kf in vlib.load_known_findings())))
@@ -357,7 +361,7 @@ def run(ctx):
                 with open(p, "w") as f:
                     for line in c[key]:
                         f.write(line + "\n")
-                jobs.append((nm, "-replay %s -port %d%s" % (p, pbase + 3 * len(jobs), ((" -policy " + c["policy"]) if c.get("policy") else "") + ((" -engine " + c["engine"]) if c.get("engine") else ""))))
+                jobs.append((nm, "-replay %s -port %d%s" % (p, pbase + 3 * len(jobs), ((" -policy " + c["policy"]) if c.get("policy") else "") + ((" -engine " + c["engine"]) if c.get("engine") else "") + (" -v2" if c.get("v2") == "true" else ""))))
     else:
         for i, p in enumerate(sorted(glob.glob(os.path.join(vlib.VERIF, "corpus", "C11", "*.tsv")))):
             pol = " -policy wait_compact" if os.path.basename(p).startswith("wc-") else ""
@@ -366,7 +370,7 @@ def run(ctx):
         for i in range(nproc):
             eng = "mem" if (quick or i % 3 != 2) else "pebble"
             pol = "wait_compact" if i % 2 == 1 else "local_deletion"
-            jobs.append(("fresh-%d" % i, "-seed %d -n %d -engine %s -policy %s -port %d%s" % (ctx.seed * 1000 + i, n, eng, pol, pbase + 3 * len(jobs), " -big" if i == 0 else "")))
+            jobs.append(("fresh-%d" % i, "-seed %d -n %d -engine %s -policy %s -port %d%s%s" % (ctx.seed * 1000 + i, n, eng, pol, pbase + 3 * len(jobs), " -big" if i == 0 else "", " -v2" if i % 4 == 3 else "")))
     res = run_epochs(ctx, jobs, avoid, budget=(420 if quick else 2400))
 
     all_mism, all_fail, total = [], [], 0
@@ -434,6 +438,6 @@ def run(ctx):
         samples=samples[:6],
     ), assumptions=[
         "strconv.ParseFloat is not modelled: its verdict per argument is supplied by the harness (Section variable pf in the theorems)",
-        "one namespace with one partition and one replica on the live server; engine mem (thorough: also pebble); expiration policies local_deletion and wait_compact (value header v1) on alternating runs; UseRedisV2=false on the live server, both encodings on the state machines",
+        "one namespace with one partition and one replica on the live server; engine mem (thorough: also pebble); expiration policies local_deletion and wait_compact (value header v1) on alternating runs; UseRedisV2=false on three of four live servers and true on the fourth, both encodings on the state machines",
         "a connection closed by the recover() of server/redis_api.go serverRedis counts as handled (the process stays up); such commands are listed in the notes",
     ])
